@@ -61,6 +61,10 @@ CHECKS = {
    text="Survive.tla (checked by TLC for all input sequences up to length 3) names the input classes and the reactions admitted for each; representatives of every class (syntax garbage, truncation at token boundaries, invalid UTF-8, nesting 10^4, 10 MiB strings, huge numbers, every JSON type in every field, unknown methods, wrong paths and verbs, bad Content-Length, duplicated / garbage headers, stray responses and notifications) are fed by a raw peer - in orders realising every ordered pair of classes in the thorough tier - to Streamable JSON / SSE / stateless / sessions-disabled, legacy SSE and stdio servers running in a child process; after each batch the server must answer a ping on the same and on a fresh connection and have no library goroutine left; a crash is bisected to the single input; the feed / health log is validated by TLC against TraceSurvive.",
    note="Trusted: TLC, the raw peer (every exchange bounded: 5-10 s), the library-frame filter of the goroutine dump. Coverage-guided byte fuzzing is a different technique and not used: 'all byte strings' is covered by classes only.",
    technique="TLA+ enumeration of fault classes and orderings + fault-injecting raw peer against 6 server kinds + TLC validation of the feed/health log"),
+ "C07": dict(level="fault_enumeration", design="DESIGN.md §5 C07",
+   text="TLC checks ClientSurvive.tla for every bad-frame class x position: the reader survives, call 1 ends (liveness) and never with a foreign answer, the later call completes, the client closes; the sticky-decoder and double-signal defects yield counterexamples; every scenario is executed against the real Streamable client (JSON answers, SSE answers, listening stream), the legacy SSE client and the stdio client (scripted child) with concrete bytes per class (garbage, non-JSON, wrong kind, unknown id, id of the wrong type, 100 KiB / 8 MiB frames, blank lines, comments, neither / both of result and error, invalid UTF-8, repeated endpoint event, truncated JSON); observed: how call 1 and the later call end, CPU burnt while idle (spin detector with repeated windows), Close(), delivery of a later well-formed notification; a crash of the client process is bisected; the scenario logs are validated by TLC against TraceClientSurvive.",
+   note="Trusted: TLC, the scripted servers / child, process CPU time as spin signal (> 150 ms in each of up to 4 consecutive 300 ms idle windows). Call deadlines 1.5 s / 2.5 s.",
+   technique="TLA+ model checking (TLC, incl. liveness) + scripted adversarial servers against 5 client configurations + TLC trace validation"),
 }
 NA = {
  "C20": "data-race freedom is a statement about individual memory accesses under the Go memory model; an abstract state-machine specification has no notion of them (see DESIGN.md §6)",
